@@ -193,6 +193,36 @@ def _check(case, ctx):
             if _ok(left, v, "(a|b)|c") != (oa or ob or oc) or _ok(right, v, "a|(b|c)") != (oa or ob or oc):
                 raise Violation("union3-verdict", f"nested union on {v!r}: parts {oa}/{ob}/{oc}")
             verdicts.add(oa or ob or oc)
+        # the documented way of changing what "accepts" means: a Validator subclass overriding visit_* - the law holds for it too
+        from d42.validation import Validator
+        from d42.validation.errors import TypeValidationError
+
+        class Strict(Validator):
+            def visit_int(self, schema_, *, value=None, path=None, **kw):
+                if isinstance(value, bool):
+                    p = path if path is not None else self.make_path()
+                    return self.make_validation_result().add_error(TypeValidationError(p, value, int))
+                return super().visit_int(schema_, value=value, **({"path": path} if path is not None else {}), **kw)
+
+            def visit_none(self, schema_, *, value=None, path=None, **kw):
+                res = super().visit_none(schema_, value=value, **({"path": path} if path is not None else {}), **kw)
+                if value is None:
+                    res.add_error(TypeValidationError(path if path is not None else self.make_path(), value, type(None)))
+                return res          # (a validator for which nothing is none)
+
+        def strict_ok(sch, v):
+            try:
+                return not sch.__accept__(Strict(), value=v).has_errors()
+            except Exception:  # noqa
+                return None
+        for v in vals + [True, False, None, [True], {"a": None}]:
+            parts = [strict_ok(x, v) for x in (A, B, C)]
+            whole = [strict_ok(x, v) for x in (left, right, flat)]
+            if None in parts or None in whole:
+                continue
+            if any(w_ != any(parts) for w_ in whole):
+                raise Violation("union-verdict", f"under a Validator subclass (bool is not an int, nothing is none) the union of {A!r}, {B!r}, "
+                                                 f"{C!r} says {whole!r} on {v!r}, its operands {parts!r}")
         if [canon.canon(x) for x in (A, B, C)] != before:
             raise Violation("operand-mutated", "| changed an operand")
         nontrivial = len(_flat_alts(A) + _flat_alts(B) + _flat_alts(C)) >= 3 and len(verdicts) == 2
